@@ -52,6 +52,11 @@ class Plain:
         v = x + 2
         return v
     @deco
+    @deco
+    def wrapped_twice(self, x):
+        v = x + 4
+        return v
+    @deco
     @tooled
     def wrapped_tooled(self, x):
         v = x + 7
@@ -482,6 +487,8 @@ def check_paths(ns, part):
         # the decorator wraps a method that is permanently tooled (functools.wraps copies its attributes)
         ("Plain.wrapped_tooled > v", lambda: (a.wrapped_tooled(1), b.wrapped_tooled(2)), [{"v": 8}, {"v": 9}]),
         ("a.wrapped_tooled > v", lambda: (a.wrapped_tooled(1), b.wrapped_tooled(2)), [{"v": 8, "self": a}]),
+        ("Plain.wrapped_twice > v", lambda: (a.wrapped_twice(1), b.wrapped_twice(2)), [{"v": 5}, {"v": 6}]),
+        ("a.wrapped_twice > v", lambda: (a.wrapped_twice(1), b.wrapped_twice(2)), [{"v": 5, "self": a}]),
         ("fz.wrapped > v", lambda: (fz.wrapped(1), fz2.wrapped(2)), [{"v": 3, "self": fz}]),
         ("fz.meth > v", lambda: (fz2.meth(1), fz.meth(2)), [{"v": 3, "self": fz}]),
     ]
